@@ -9,7 +9,7 @@ REQUIRED = ["CifModel.C19_list_is_sequence", "CifModel.C19_table_is_map", "CifMo
             "CifModel.C19_remove_transfers_entry", "CifModel.C19_reinit_releases_heap", "CifModel.C19_capacity_growth",
             "CifModel.C16_map_heap_safe", "CifModel.C16_map_set_item_heap_safe", "CifModel.C16_map_remove_item_heap_safe",
             "CifModel.C16_cex_F10_pinned", "CifModel.C19_clone_onto_repaired", "CifModel.C19_set_replaces_in_place",
-            "CifModel.C16_packet_create_heap_safe", "CifModel.C16_get_keys_heap_safe", "CifModel.C19_clone_onto_heap"]
+            "CifModel.C16_packet_create_heap_safe", "CifModel.C16_get_keys_heap_safe", "CifModel.C19_clone_onto_heap", "CifModel.C19_reinit_heap"]
 GEN = ["ErrCodes", "ValueCols"]
 FAMILIES = ["val", "valheap"]
 TRUSTED_BASE = [
@@ -33,8 +33,7 @@ PARTIAL = [
     "depth, shared key blocks included), list insert with capacity growth / set in place / remove with transfer of ownership, "
     "cif_map_set_item and cif_map_retrieve_item(do_remove) on whole standalone maps (refinement of the pure mapSet / mapErase), "
     "cif_packet_create over a whole name list incl. the CIF_DUP_ITEMNAME refusal, cif_packet_free, get_keys, entry re-spelling "
-    "and detaching. NOT stated at heap level: the (re)initialisers other than clean (init / init_char / copy_char are clean + "
-    "one allocation; run by family valheap, no theorem), convert_to_standalone (unreachable through the public API), allocation "
+    "and detaching. the (re)initialisers (reinitH). NOT stated at heap level: convert_to_standalone (unreachable through the public API), allocation "
     "failures (property C17)",
     "the heap model is tied to value.c / map.c / packet.c by family valheap: for every operation of the same random sequences "
     "the change in the number of live blocks reported by the allocation tracker (harness/alloc.h) equals the change the heap "
